@@ -592,6 +592,12 @@ func runConfig(c config, g *hx.Rng, dur time.Duration, nsess int, cn *counters) 
 	snapshot := append([]*kcp.UDPSession{}, all...)
 	sessMu.Unlock()
 	var cw sync.WaitGroup
+	if c.mem && g.Bool() {
+		// the listener's socket fails while its sessions are being closed: the monitor loop walks the
+		// session table (error propagation) while closeSession deletes from it
+		cw.Add(1)
+		go func() { defer cw.Done(); _ = serverPC.Close(); x.did("socket-failure-during-close") }()
+	}
 	for _, s := range snapshot {
 		for k := 0; k < 2; k++ {
 			cw.Add(1)
